@@ -172,7 +172,8 @@ def run(cx):
     cx.ob("C07.R5", "fill_outputs:scope-lookup", okf,
           "a declared output without a value is filled by Task::find (own data, then every enclosing scope) under the same name and that value is what is inserted (%d find call(s))" % len(finds),
           finds[0].loc if finds else g.loc())
-    cx.floor("C07.R5", 5)
+    fill_outputs_declared_null(cx, "C07.R5")
+    cx.floor("C07.R5", 6)
 
 
 def _feeds(g, pv, c, ins):
@@ -491,3 +492,26 @@ def r8_step_proxy(cx):
               "`%s` works on the newest task of the step node (`.last()` of the tasks found for the node id)%s" % (
                   name, "" if not bad else " - but it takes `%s`: the oldest instance, i.e. the round a back / redo abandoned" % short_name(bad[0].q)), (bad or [sel[0][0]])[0].loc)
     cx.floor("C07.R8", 4)
+
+
+def fill_outputs_declared_null(cx, rule):
+    m = cx.m
+    pa = Prov(m, "alias")
+    pv = Prov(m, "value")
+    g = m.one(r"^acts::utils::convert::fill_outputs$")
+    finds = [c for c in g.calls() if re.search(r"Task::find(::<.*>)?$", c.q)]
+    # ... and only then: the lookup is decided by the DECLARED value being null (the placeholder `k:`), not by what a template
+    # evaluated to - `k: "{{ expr }}"` whose expression yields null is null, it does not pick up an unrelated variable `k`
+    from vlib.model import conditions_of
+    okn, whyn = False, "no `is_null` test decides the lookup"
+    for c in finds:
+        for gd in conditions_of(m, g, c.b, mode="value"):
+            r = gd.root
+            if r[0] == "call" and r[1].endswith("Value::is_null") and gd.truth is True:
+                subj = pv.root(g, Call(g, r[2]).args[0])
+                srcn = pa.iter_source(g, ("call", subj[1], subj[2], ())) if subj[0] == "call" else None
+                if srcn is not None and srcn[0][0] == "param" and srcn[0][1] == 1:
+                    okn, whyn = True, "is_null of the loop element's declared value"
+                else:
+                    whyn = "the null test is made on %s, not on the declared value of the map that was handed in" % root_str(subj)
+    cx.ob(rule, "fill_outputs:lookup-on-declared-null", okn, "the scope lookup is decided by the declared value being null (%s)" % whyn, finds[0].loc if finds else g.loc())
